@@ -40,19 +40,20 @@ theorem operation_minus_int (a b : Int) :
 theorem operation_multiply_int (a b : Int) :
     operation ops cells held .multiply (.int a) (.int b) = .val (.int (clampI64 (a * b))) [] := rfl
 
-theorem operation_modulus_int (a b : Int) (hb : b ≠ 0) (hm : ¬ (a = i64Min ∧ b = -1)) :
+theorem operation_modulus_int (a b : Int) (hb : b ≠ 0) :
     operation ops cells held .modulus (.int a) (.int b) = .val (.int (Int.tmod a b)) [] := by
   simp only [operation, isNumeric, Bool.and_self, if_true, arith, remI64]
   have h1 : (b == 0) = false := by simp [hb]
-  have h2 : (a == i64Min && b == -1) = false := by
-    cases ha : (a == i64Min) <;> cases hb' : (b == -1) <;> simp_all
-  simp [h1, h2]
+  simp [h1]
 
+/-- a zero divisor yields an error value (it used to panic) -/
 theorem operation_modulus_zero (a : Int) :
-    operation ops cells held .modulus (.int a) (.int 0) = .panic .remByZero := rfl
+    operation ops cells held .modulus (.int a) (.int 0) = .val (.error .remUndefined) [] := rfl
 
+/-- `i64::MIN % -1` is 0 (it used to panic) -/
 theorem operation_modulus_min :
-    operation ops cells held .modulus (.int i64Min) (.int (-1)) = .panic .remOverflow := rfl
+    operation ops cells held .modulus (.int i64Min) (.int (-1)) = .val (.int 0) [] := by
+  rw [operation_modulus_int ops cells held i64Min (-1) (by decide)]; rfl
 
 /-- Double contagion for `+ - *`: one Double operand makes the result a Double -/
 theorem operation_contagion (a : Int) (b : D) :
@@ -85,21 +86,29 @@ theorem operation_plus_aggregates (s t : Str) (a1 a2 : List Ref) (m1 m2 : List (
 theorem operation_less_str (s t : Str) :
     operation ops cells held .less (.str s) (.str t) = .val (.bool (strLt s t)) [] := rfl
 
-/-- integers are compared through `f64` -/
-theorem operation_less_int (a b : Int) :
-    operation ops cells held .less (.int a) (.int b) =
-      .val (.bool (ops.lt (ops.ofInt a) (ops.ofInt b))) [] := rfl
+/-- two integers are compared exactly -/
+theorem operation_compare_int (a b : Int) :
+    operation ops cells held .less (.int a) (.int b) = .val (.bool (decide (a < b))) [] ∧
+    operation ops cells held .lessEqual (.int a) (.int b) = .val (.bool (decide (a ≤ b))) [] ∧
+    operation ops cells held .greater (.int a) (.int b) = .val (.bool (decide (b < a))) [] ∧
+    operation ops cells held .greaterEqual (.int a) (.int b) = .val (.bool (decide (b ≤ a))) [] :=
+  ⟨rfl, rfl, rfl, rfl⟩
 
-/-- arithmetic never blocks and only `%` can panic -/
-theorem operation_no_panic (o : Op) (l r : Data D) (ho : o ≠ .modulus) (s : PanicSite) :
-    operation ops cells held o l r ≠ .panic s := by
+/-- an Integer and a Double are compared through `as_number` -/
+theorem operation_less_int_dbl (a : Int) (b : D) :
+    operation ops cells held .less (.int a) (.dbl b) = .val (.bool (ops.lt (ops.ofInt a) b)) [] := rfl
+
+/-- every operator other than `==` / `!=` yields a value (possibly an error value): no panic, no
+blocking.  (`OpRes` has no panic outcome any more: integer `%` was the only source.) -/
+theorem operation_val (o : Op) (l r : Data D) (h1 : o ≠ .equal) (h2 : o ≠ .notEqual) :
+    ∃ d n, operation ops cells held o l r = .val d n := by
   cases o <;> simp only [operation] <;> try contradiction
   all_goals
     repeat' split
     all_goals first
-      | (intro h; cases h)
-      | (simp only [arith]; repeat' split
-         all_goals (intro h; cases h))
+      | exact ⟨_, _, rfl⟩
+      | (simp only [arith, remI64]; repeat' split
+         all_goals exact ⟨_, _, rfl⟩)
 
 /-! ### the compile cache -/
 
